@@ -1,13 +1,19 @@
 /-
   C15 — Fiat–Shamir challenge encoding equals its specification.
-  Property theorems only; helper lemmas live in GabiProofs.
+  Property theorems only; helper lemmas live in GabiProofs.DerLemmas / NumLemmas.
+
+  The Lean modules GabiModel.Der / Sha256 / HashTool are the "independently written reference";
+  the correspondence run of `./check C15` compares them with common.HashCommit, GetHashNumber,
+  IntHashSha256 and createChallenge output-for-output.
 -/
 import GabiModel.HashTool
+import GabiProofs.DerLemmas
+import GabiProofs.NumLemmas
 namespace Gabi.C15
 open Gabi Gabi.Der
 
 /-- The challenge is the SHA-256 digest, read as an unsigned big-endian integer, of the DER
-    SEQUENCE (marker only for signature sessions, count, the integers in order). -/
+    SEQUENCE (marker only for signature sessions, element count, the integers in order). -/
 theorem hashCommit_spec (vs : List Int) (issig : Bool) :
     hashCommit vs issig =
       ofBytesBE (Sha256.hash (derSeq ((if issig then [derBool true] else []) ++
@@ -16,5 +22,86 @@ theorem hashCommit_spec (vs : List Int) (issig : Bool) :
 /-- `createChallenge` sandwiches the contributions between context and nonce. -/
 theorem createChallenge_spec (ctx nonce : Int) (cs : List Int) (issig : Bool) :
     createChallenge ctx nonce cs issig = hashCommit (ctx :: cs ++ [nonce]) issig := rfl
+
+/-- DER INTEGER contents are the minimal two's-complement octets (X.690 §8.3): `k` octets with
+    `-2^(8k-1) ≤ z < 2^(8k-1)`, and no shorter length has that property. -/
+theorem der_integer_minimal (z : Int) :
+    (intContent z).length = intContentLen z ∧
+    (-(2 : Int) ^ (8 * intContentLen z - 1) ≤ z ∧ z < 2 ^ (8 * intContentLen z - 1)) :=
+  ⟨intContent_length z, intContent_range z⟩
+
+/-- Definite lengths: short form below 128, long form from 128 on (boundary 127/128). -/
+theorem der_length_forms :
+    derLen 127 = [127] ∧ derLen 128 = [0x81, 128] ∧ derLen 255 = [0x81, 255] ∧
+    derLen 256 = [0x82, 1, 0] ∧ derLen 65535 = [0x82, 255, 255] ∧ derLen 65536 = [0x83, 1, 0, 0] := by
+  decide
+
+/-- The encoder is injective: the hashed byte string determines the marker and the integer
+    list (hence also the count and the order). The hypothesis bounds the input length by
+    256^126 bytes – beyond that the long-form length-of-length octet itself would overflow
+    (tight: see GabiProofs.DerLemmas). -/
+theorem der_injective {vs vs' : List Int} {b b' : Bool}
+    (hl : (hashCommitInput vs b).length < 256 ^ 126)
+    (hl' : (hashCommitInput vs' b').length < 256 ^ 126)
+    (h : hashCommitInput vs b = hashCommitInput vs' b') : vs = vs' ∧ b = b' :=
+  hashCommitInput_injective hl hl' h
+
+/-- Equal challenges ⇒ equal (marker, integers) **or** an explicit SHA-256 collision. -/
+theorem hashCommit_differs {vs vs' : List Int} {b b' : Bool}
+    (hl : (hashCommitInput vs b).length < 256 ^ 126)
+    (hl' : (hashCommitInput vs' b').length < 256 ^ 126)
+    (hne : ¬ (vs = vs' ∧ b = b')) :
+    hashCommit vs b ≠ hashCommit vs' b' ∨
+      (hashCommitInput vs b ≠ hashCommitInput vs' b' ∧
+        Sha256.hash (hashCommitInput vs b) = Sha256.hash (hashCommitInput vs' b')) := by
+  by_cases h : hashCommit vs b = hashCommit vs' b'
+  · rcases hashCommit_binds hl hl' h with heq | hcol
+    · exact absurd heq hne
+    · exact Or.inr hcol
+  · exact Or.inl h
+
+/-- The same for the session challenge: context, contributions (count and order), nonce and
+    session kind are all bound. -/
+theorem challenge_binds {ctx ctx' n n' : Int} {cs cs' : List Int} {b b' : Bool}
+    (hl : (hashCommitInput (ctx :: cs ++ [n]) b).length < 256 ^ 126)
+    (hl' : (hashCommitInput (ctx' :: cs' ++ [n']) b').length < 256 ^ 126)
+    (h : createChallenge ctx n cs b = createChallenge ctx' n' cs' b') :
+    (ctx = ctx' ∧ cs = cs' ∧ n = n' ∧ b = b') ∨
+      (hashCommitInput (ctx :: cs ++ [n]) b ≠ hashCommitInput (ctx' :: cs' ++ [n']) b' ∧
+        Sha256.hash (hashCommitInput (ctx :: cs ++ [n]) b) =
+          Sha256.hash (hashCommitInput (ctx' :: cs' ++ [n']) b')) :=
+  createChallenge_binds hl hl' h
+
+/-- the digest has 32 bytes, so the challenge is below 2^256. -/
+theorem hashCommit_lt (vs : List Int) (b : Bool) : hashCommit vs b < 2 ^ 256 := by
+  have h := ofBytesBE_lt (Sha256.hash (hashCommitInput vs b))
+  rw [Sha256.hash_length] at h
+  have : (256 : Nat) ^ 32 = 2 ^ 256 := by norm_num
+  unfold hashCommit; omega
+
+private theorem foldl_add_eq_sum (f : Nat → Nat) (l : List Nat) (acc : Nat) :
+    l.foldl (fun res j => res + f j) acc = acc + (l.map f).sum := by
+  induction l generalizing acc with
+  | nil => simp
+  | cons x xs ih => simp [ih, Nat.add_assoc]
+
+/-- The hash-to-number expansion is `Σ_{j < ⌈bitlen/256⌉} H_j · 2^(256 j)` where `H_j` is the
+    challenge hash of `([a,] [b,] index, j)`. -/
+theorem getHashNumber_spec (a b : Option Int) (index : Int) (bitlen : Nat) :
+    getHashNumber a b index bitlen =
+      ((List.range ((bitlen + 255) / 256)).map
+        (fun j => hashCommit (a.toList ++ b.toList ++ [index] ++ [Int.ofNat j]) false * 2 ^ (256 * j))).sum := by
+  unfold getHashNumber
+  simp only []
+  rw [foldl_add_eq_sum (fun j => hashCommit (a.toList ++ b.toList ++ [index] ++ [Int.ofNat j]) false * 2 ^ (256 * j))]
+  simp
+
+/-- non-vacuity of the size hypotheses: a concrete input is far below the bound. -/
+example : (hashCommitInput [1, -129, 2 ^ 300] true).length < 256 ^ 126 := by decide
+
+/-- The attribute exponent: values of at most `lm` bits are used as they are, longer ones are
+    replaced by the SHA-256 of their big-endian bytes. -/
+theorem attrExp_spec (lm : Nat) (a : Int) :
+    attrExp lm a = if bitLen a > lm then (intHashSha256 (intBytes a) : Int) else a := rfl
 
 end Gabi.C15
